@@ -387,11 +387,60 @@ func (r *Runner) stmtSync(ctx context.Context, st *syntax.Stmt) {
 		// shell itself, so don't undo them and keep their files open.
 		r.keepRedirs = false
 	} else if len(st.Redirs) > 0 {
-		r.stdin, r.stdout, r.stderr = oldIn, oldOut, oldErr
+		// Undo only the redirections of this statement: an "exec" inside it
+		// may have redirected the other streams for the rest of the shell,
+		// as in "{ exec 2>file; } >/dev/null".
+		in, out, err := redirStreams(st.Redirs)
+		if in {
+			r.stdin = oldIn
+		}
+		if out {
+			r.stdout = oldOut
+		}
+		if err {
+			r.stderr = oldErr
+		}
 		for _, cls := range closers {
 			cls.Close()
 		}
 	}
+}
+
+func isDigits(s string) bool {
+	for _, c := range s {
+		if c < '0' || c > '9' {
+			return false
+		}
+	}
+	return s != ""
+}
+
+// redirStreams reports which of the standard streams a list of redirections
+// may replace.
+func redirStreams(redirs []*syntax.Redirect) (in, out, err bool) {
+	for _, rd := range redirs {
+		switch rd.Op {
+		case syntax.Hdoc, syntax.DashHdoc, syntax.WordHdoc, syntax.RdrIn, syntax.DplIn:
+			in = true
+		case syntax.RdrAll, syntax.AppAll:
+			out, err = true, true
+		case syntax.RdrOut, syntax.AppOut, syntax.DplOut:
+			if rd.N != nil && rd.N.Value == "2" {
+				err = true
+			} else {
+				out = true
+			}
+			if rd.Op == syntax.DplOut {
+				// ">&word" is "&>word" unless word is a descriptor or "-".
+				if lit := rd.Word.Lit(); lit != "-" && !isDigits(lit) {
+					err = true
+				}
+			}
+		default:
+			in, out, err = true, true, true
+		}
+	}
+	return in, out, err
 }
 
 func (r *Runner) cmd(ctx context.Context, cm syntax.Command) {
